@@ -214,6 +214,22 @@ var injectors = []injector{
 			"{foreach $zq in [1]}{$zq}{ifempty}{let $zq: 0/}{isLast($zq)}{/foreach}"}
 		return bodySite(r, fs, sn[r.Intn(len(sn))])
 	}},
+	// a command outside every template is never checked nor rendered: whatever rule it breaks would go unnoticed
+	{"command-outside-template", func(r *RNG, fs []srcFile) ([]srcFile, bool) {
+		sn := []string{"{$zzz}", "{if $zzz}x{/if}", "{call .doesNotExist /}", "{let $ij: 1 /}", "{let $unused: 1 /}", "{foreach $i in [1]}x{/foreach}{$i}", "{msg desc=\"d\"}{$zzz}{/msg}", "{css $zzz, a}"}
+		out := append([]srcFile(nil), fs...)
+		k := r.Intn(len(out))
+		c := out[k].content
+		snip := sn[r.Intn(len(sn))] + "\n"
+		if r.Bool() {
+			out[k].content = c + snip
+		} else if i := strings.Index(c, "{/template}\n"); i >= 0 {
+			out[k].content = c[:i+len("{/template}\n")] + snip + c[i+len("{/template}\n"):]
+		} else {
+			return nil, false
+		}
+		return out, true
+	}},
 	{"unused-param", func(r *RNG, fs []srcFile) ([]srcFile, bool) {
 		if r.Bool() {
 			return replaceFirstFrom(r, fs, "/**\n", "/**\n * @param zz\n")
